@@ -25,6 +25,7 @@ def run(ctx: Ctx) -> Result:
     # the Redis client over the fake server: sequential histories, whole command/reply stream against RedisBroker.v
     _redis.run_seq(ctx, res, "c01r", {"C01"}, "any", 150, 3000, rng)
     _rabbit.run_seq(ctx, res, "c01q", {"C01"}, "any", 120, 2500, rng)
+    _rabbit.consume_waiting_cuts(ctx, res)
     return res
 
 
